@@ -176,7 +176,12 @@ def compare_full(eng: Engine, got, sdl_b, full: bool = True):
         if d1 or d2:
             out += [f'delta_schemas(result, target) = {d1[:6]}', f'delta_schemas(target, result) = {d2[:6]}']
     dg = sc.dump(got)
-    out += sc.dump_diff(dg, dump_b)
+    from props import c02_classify as cl
+    # the VALUES are compared; a difference in the "explicitly stored" flag alone (same effective value) is not
+    # observable and is ignored by delta_schemas: counted, not failed
+    lines = sc.dump_diff(cl.value_dump(dg), cl.value_dump(dump_b))
+    eng.t['flag_only'] = eng.t.get('flag_only', 0) + (1 if (not lines and not out and dg != dump_b) else 0)
+    out += lines
     eng.t['dump'] += time.time() - t
     return out, dg
 
@@ -467,6 +472,41 @@ def run_rebase(ctx: core.Ctx, eng: Engine, n_sdl: int, n_ddl: int) -> dict:
     return out
 
 
+#: deterministic chains of the "same-named pointer provided by several unrelated parents" shape (always run, by
+#: C02 as consecutive pairs through all routes and by C10 as chains): create the shape, then drop the pointer
+#: from ONE parent / remove a parent from the bases / alter it in one parent.
+SHARED_CHAINS = [
+    ['module default { type A { property x -> str; } type B { property x -> str; } type C extending A, B; }',
+     'module default { type A; type B { property x -> str; } type C extending A, B; }',
+     'module default { type A; type B { required property x -> str; } type C extending A, B; }'],
+    ['module default { type T; type A { link l -> T { property p -> str; } } type B { link l -> T; } '
+     'type C extending A, B; type G extending C; }',
+     'module default { type T; type A { link l -> T { property p -> str; } } type B; '
+     'type C extending A, B; type G extending C; }',
+     'module default { type T; type A { required link l -> T { property p -> str; } } type B; '
+     'type C extending A, B; type G extending C; }'],
+    ["module default { type A { property x -> str { constraint exclusive; } } type B { property x -> str "
+     "{ annotation title := 'b'; } } type D { property x -> str; } type C extending A, B, D; type G extending C; }",
+     "module default { type A { property x -> str { constraint exclusive; } } type B { property x -> str "
+     "{ annotation title := 'b'; } } type D { property x -> str; } type C extending B, D; type G extending C; }",
+     "module default { type A { property x -> str { constraint exclusive; } } type B "
+     "type D { property x -> str; } type C extending B, D; type G extending C; }".replace('type B type D', 'type B; type D'),
+     "module default { type A { property x -> str { constraint exclusive; } } type B; "
+     "type D { required property x -> str; } type C extending B, D; type G extending C; }"],
+]
+
+
+def run_shared(ctx: core.Ctx, eng: Engine) -> dict:
+    out = {}
+    for ch in SHARED_CHAINS:
+        for sa, sb in zip(ch, ch[1:]):
+            rec = check_pair(ctx, eng, sa, sb, ['shared-chain-step'], extra_text_route=True, stream='shared',
+                             all_routes=True)
+            out[rec['outcome']] = out.get(rec['outcome'], 0) + 1
+    ctx.log('shared-pointer pairs:', out)
+    return out
+
+
 def gen_pair(rng, sc):
     """one feature-directed pair: (specA, specB, tags)"""
     k = rng.random()
@@ -477,8 +517,16 @@ def gen_pair(rng, sc):
         return sc.gen_spec(rng, size), sc.empty_spec(), ['to-empty']
     if k < 0.20:
         return sc.gen_spec(rng, size), sc.gen_spec(rng, size), ['unrelated']
+    if k < 0.32:
+        # same-named pointer provided by several unrelated parents: drop / alter it in one parent only, add it to
+        # a second parent, remove a providing parent from the bases
+        a = sc.gen_spec(rng, rng.choice([1, 2, 3]), features=set(sc.DEFAULT_FEATURES) | {'shared_ptrs'})
+        b, tags = sc.mutate(rng, a, 1, kinds=list(sc.SHARED_MUTATIONS))
+        if tags:
+            b, t2 = sc.mutate(rng, b, rng.choice([0, 0, 1]))
+            return a, b, list(tags) + list(t2)
     a = sc.gen_spec(rng, size)
-    if k < 0.30:
+    if k < 0.42:
         # rebases inside rich schemas: multi-group inserts / adjacent drops, possibly followed by other mutations
         b, tags = sc.mutate(rng, a, 1, kinds=['rebase_multi', 'drop_adjacent_bases'])
         if tags:
@@ -504,14 +552,16 @@ def run_corpus(ctx: core.Ctx, eng: Engine) -> dict:
         if 'ddl' in case:
             rec = check_ddl_case(ctx, eng, case['ddl'], case['plan'], 'corpus', fixed_key=case['key'])
         else:
-            rec = check_pair(ctx, eng, case['sdlA'], case['sdlB'], case.get('mutations', []), extra_text_route=True,
+            rec = check_pair(ctx, eng, case['sdlA'], case['sdlB'], case.get('mutations', []), extra_text_route=False,
                              stream='corpus', fixed_key=case['key'])
         res[case['key']] = rec['outcome'] + (' -> ' + ','.join(rec['causes']) if rec.get('causes') else '')
     ctx.log('corpus:', res)
     return res
 
 
-def run_level2(ctx: core.Ctx, n_pairs: int) -> dict:
+def run_level2(ctx: core.Ctx, n_pairs: int, deadline_s: float | None = None) -> dict:
+    """corpus witnesses and rebase streams ALWAYS run in full; only the number of random pairs is reduced by the
+    wall-clock guard (never below the minimum), so a slow machine covers a prefix of the same pair sequence"""
     eng = Engine()
     sc = eng.sc
     rng = ctx.rng
@@ -522,8 +572,9 @@ def run_level2(ctx: core.Ctx, n_pairs: int) -> dict:
     distinct = set()
     samples = []
     corpus = run_corpus(ctx, eng)
+    shared = run_shared(ctx, eng)
     rebase = run_rebase(ctx, eng, ctx.budget(8, 300), ctx.budget(8, 300))
-    deadline = time.time() + ctx.budget(85, 1500)     # wall-clock guard: the quick tier must stay within minutes
+    deadline = time.time() + (deadline_s if deadline_s is not None else ctx.budget(85, 1500))   # wall-clock guard
     done = 0
     for i in range(n_pairs):
         if time.time() > deadline and done >= ctx.budget(15, 300):
@@ -548,7 +599,7 @@ def run_level2(ctx: core.Ctx, n_pairs: int) -> dict:
             f'engine time {dict((k, round(v, 1)) for k, v in eng.t.items())}')
     return {'n': n_pairs, 'outcomes': outcomes, 'mutations_in_accepted_pairs': tags_ok,
             'features_in_accepted_pairs': feats, 'distinct_nontrivial': len(distinct), 'samples': samples,
-            'corpus': corpus, 'rebase': rebase,
+            'corpus': corpus, 'rebase': rebase, 'shared_pointer_pairs': shared,
             'engine_seconds': {k: round(v, 1) for k, v in eng.t.items()}}
 
 
